@@ -60,17 +60,6 @@ def lshow(b):
     return "%d:%s" % (len(b), show(b))
 
 
-class Stream:
-    """Lazily rendered pattern stream with cached prefix hashes would be overkill: slices are
-    rendered on demand (cases are small except a few 100 kB ones)."""
-
-    def __init__(self, salt):
-        self.salt = salt
-
-    def get(self, a, b):
-        return pat_bytes(self.salt, a, b - a)
-
-
 # ------------------------------------------------------------------ build / run
 def build(ctx, sub):
     exe, err = vlib.build_c("drv_net_asan", "drv_net.c", SRC, extra_sources=["wrap_net.c"], wraps=WRAPS, asan=True)
@@ -445,12 +434,14 @@ def check_sc(case, toks, allocfail=False):
                     V("%s: the reader must offer the whole tail of its buffer" % t)
                 if blk < RBUF:
                     V("%s: reader buffer smaller than %d" % (t, RBUF))
-                have = len(nr["visible"]) + len(nr["pending"]) - nr["consumed"]
-                if ln < nr["wait"] - have:
-                    V("%s: asks for %d bytes but %d are still needed" % (t, ln, nr["wait"] - have))
+                # what is still missing is fixed when the wait is made (bytes the application
+                # consumes while its own wait is pending are its own business)
+                missing = nr["need"] - len(nr["pending"])
+                if ln < missing:
+                    V("%s: asks for %d bytes but %d are still needed" % (t, ln, missing))
                 if a[0] == "N" and a[1] > 0:
                     nr["pending"] += pat_bytes(fd, a[2], a[1])
-                    if have + a[1] >= nr["wait"]:
+                    if a[1] >= missing:
                         expect = ("nrcb", 0)
                 elif a[0] == "N":
                     expect = ("nrcb", 1)
@@ -485,7 +476,8 @@ def check_sc(case, toks, allocfail=False):
                 expect = None
                 continue
             if expect is None or expect[0] != "cb" or expect[1] != rid:
-                V("%s: callback without a terminal kernel answer (spurious or repeated)" % t)
+                if not (allocfail and v == -1):
+                    V("%s: callback without a terminal kernel answer (spurious or repeated)" % t)
             elif expect[2] != v and not (allocfail and v == -1):
                 V("%s: callback value should be %d" % (t, expect[2]))
             expect = None
@@ -550,7 +542,8 @@ def check_sc(case, toks, allocfail=False):
                 nr["wait"] = k
                 nr["pending"] = bytearray()
                 nr["imm"] = (len(nr["visible"]) - nr["consumed"] >= k)
-                nr["recvs"] = 0
+                nr["need"] = k - (len(nr["visible"]) - nr["consumed"])
+                nr["consumed_in_wait"] = False
             elif not allocfail:
                 V("%s: wait failed without an allocation failure" % t)
             continue
@@ -566,7 +559,8 @@ def check_sc(case, toks, allocfail=False):
                 if st != 0 or len(nr["pending"]) > 0 or expect is not None:
                     V("%s: a wait for %d with %d bytes buffered completes by an immediate event with status 0" % (t, k, len(nr["visible"]) - nr["consumed"]))
             elif expect is None or expect[0] != "nrcb":
-                V("%s: wait callback without a terminal kernel answer" % t)
+                if not (allocfail and st == -1):
+                    V("%s: wait callback without a terminal kernel answer" % t)
             elif expect[1] != st and not (allocfail and st == -1):
                 V("%s: status should be %d" % (t, expect[1]))
             expect = None
@@ -576,7 +570,7 @@ def check_sc(case, toks, allocfail=False):
                 nr["ended"] = True      # EOF / error reported: nothing is promised from here on
             nr["pending"] = bytearray()
             nr["wait"] = None
-            if st == 0 and ln < k:
+            if st == 0 and ln < k and not nr.get("consumed_in_wait"):
                 V("%s: success reported with %d < %d bytes buffered" % (t, ln, k))
             observe_reader(t, "%d:%s" % (ln, sh))
             continue
@@ -586,6 +580,8 @@ def check_sc(case, toks, allocfail=False):
             if j > len(nr["visible"]) - nr["consumed"] and not nr["ended"]:
                 V("%s: consumes more than is buffered" % t)
             nr["consumed"] += j
+            if nr["wait"] is not None and j > 0:
+                nr["consumed_in_wait"] = True
             continue
         if t == "nrx":
             if nr["wait"] is not None and len(nr["pending"]) > 0:
@@ -626,7 +622,9 @@ def check_sc(case, toks, allocfail=False):
         if t == "fail":
             nw["nfail"] += 1
             if expect is None or expect[0] != "fail":
-                V("fail callback without a transport failure")
+                if not allocfail:
+                    V("fail callback without a transport failure")
+                nw["fl_len"] = None
             if nw["nfail"] > 1:
                 V("fail callback fired more than once")
             expect = None
@@ -1177,10 +1175,23 @@ def corpus_cases(prefixes):
 
 
 # ------------------------------------------------------------------ the sub-checks
-def _run(ctx, sub, cases, checker, rule, want_kinds=("sc",)):
+def _replay_cases(ctx, sub):
+    """./check <id> --replay <file>: only the cases of this sub-check recorded in the replay file"""
+    rep = getattr(ctx, "replay", None)
+    if not rep:
+        return None
+    return [f["case"] for f in rep.get("failures", []) if f.get("sub") == sub and f.get("case")]
+
+
+def _run(ctx, sub, cases, checker, rule):
     exe, mexe = build(ctx, sub)
     if not exe or not mexe:
         return
+    rc = _replay_cases(ctx, sub)
+    if rc is not None:
+        if not rc:
+            return
+        cases = rc
     impl, st = vlib.run_sharded(exe, cases, env=ASAN_ENV)
     model, _ = vlib.run_sharded(mexe, cases)
     nd = nk = 0
@@ -1263,3 +1274,162 @@ def check_netbuf_write(ctx):
 
 SUBCHECKS = {"C06": [check_net_rw, check_net_connect, check_net_accept],
              "C07": [check_netbuf_read, check_netbuf_write]}
+
+
+# ------------------------------------------------------------------ C14: fail the k-th allocation
+AF_BASE = [
+    "sc r:1:5:10:3 k:5:r:d2,eEAGAIN,d4 run",
+    "sc w:1:6:20:20 k:6:w:n5,eEAGAIN,n100 run",
+    "sc r:1:5:10:10 { r:2:5:4:4 } k:5:r:d7,eEINTR,d9 run k:5:r:z run",
+    "sc r:1:5:8:8 w:2:5:6:6 k:5:r:d3 run x:1 r:3:5:4:1 k:5:r:d9 run k:5:w:n6 run",
+    "sc a:1:7 { a:2:7 } k:7:r:eECONNABORTED,eEINTR,c run k:7:r:eEMFILE run",
+    "sc nri:5 nrw:10 { nrc:10 nrw:5000 { nrc:4000 } } k:5:r:d6,d6 run k:5:r:d4096,d4096 run nrw:1 run",
+    "sc nri:5 nrw:4090 { nrc:4090 nrw:100 } k:5:r:d4095 run k:5:r:d1000 run nrx nrw:3 run",
+    "sc nwi:6 nww:10 nww:0 nww:5000 nwr:100 nwc:50 k:6:w:n10,n4096,n100000 run k:6:w:n100000 run",
+    # F6: a write in flight, then an allocation refused in reserve, then the completion
+    "sc nwi:6 nww:10 nww:5000 k:6:w:n10,n5000 run nww:3 k:6:w:n3 run",
+    "sc nwi:6 nww:4096 nwr:1 nwc:1 nww:9000 k:6:w:n4096,eEAGAIN,n1,n9000 run",
+    "sc nwi:6 nww:10 nww:20 k:6:w:eECONNRESET run nww:5 nwr:5000 nwc:10 run",
+    "conn 1 SFAK ssss", "conn 0 - s", "conn 1 TTK sss", "conn 0 AK ss", "conn 1 NHBJ sx",
+    "conn 1 AAK rrr", "conn 0 K x", "conn 1 FFF s",
+]
+
+AF_RETRY = [("r", "=null", "=ok"), ("w", "=null", "=ok"), ("a", "=null", "=ok"), ("nri", "=null", "=ok"),
+            ("nrw", "=-1", "=0"), ("nwr", "=null", "=ok"), ("nwi", "=null", "=ok"), ("start", "=null", "=ok")]
+
+
+def _collapse_retry(toks):
+    """drop a reported failure that is immediately followed by the successful retry of the same op"""
+    out, i = [], 0
+    while i < len(toks):
+        t = toks[i]
+        if i + 1 < len(toks):
+            for pre, bad, good in AF_RETRY:
+                if t.startswith(pre) and t.endswith(bad) and toks[i + 1] in (t[:-len(bad)] + good, t):
+                    t = None
+                    break
+        if t is not None:
+            out.append(t)
+        i += 1
+    return out
+
+
+def check_net_allocfail(ctx):
+    sub = "net_allocfail"
+    exe, mexe = build(ctx, sub)
+    if not exe:
+        return
+    r = ctx.rng
+    base = list(AF_BASE)
+    # a few generated small scenarios as well
+    class Quiet:
+        rng = r
+
+        def count(self, *a, **k):
+            pass
+    q = Quiet()
+    extra = gen_rw(q, 12) + gen_accept(q, 4) + gen_nbw(q, 40, big_every=10 ** 9)[:8] + gen_nbr(q, 40, big_every=10 ** 9)[:8]
+    extra = [c for c in extra if len(c) < 400 and "100000" not in c]
+    base += extra + gen_connect(q, 6)[-6:]
+    base_out, st0 = vlib.run_sharded(exe, base, env=ASAN_ENV)
+    cases, ref = [], []
+    for c, a in zip(base, base_out):
+        core, extra_t, status = split_impl(a)
+        m = re.search(r"allocs=(\d+)", a)
+        if status or not m:
+            ctx.fail(sub, "crash", c, "baseline run failed: " + a[-300:], property_fails=True)
+            continue
+        n = int(m.group(1))
+        ks = list(range(1, n + 1))
+        if ctx.quick and len(ks) > 14:
+            ks = sorted(r.sample(ks, 14))
+        for k in ks:
+            cases.append("af=%d %s" % (k, c))
+            ref.append((c, core))
+        for k in ([1, max(1, n // 2)] if ctx.quick else ks[::2]):
+            cases.append("af=%dp %s" % (k, c))
+            ref.append((c, core))
+        ctx.count("allocfail.base_cases")
+    rc = _replay_cases(ctx, sub)
+    if rc is not None:
+        keep = [i for i, ac in enumerate(cases) if ac in rc]
+        cases, ref = [cases[i] for i in keep], [ref[i] for i in keep]
+        if not cases:
+            return
+    out, st = vlib.run_sharded(exe, cases, env=ASAN_ENV)
+    nd = 0
+    nontrivial = set()
+    for ac, (c, base_core), a in zip(cases, ref, out):
+        core, extra_t, status = split_impl(a)
+        toks = core.split()
+        persist = ac.split()[0].endswith("p")
+        viol = extras_ok(extra_t, status)
+        m = re.search(r"refused=(\d+) failop=(-?\d+)", a)
+        if "abandon" in toks:
+            ctx.count("allocfail.abandon")
+            if status:
+                viol.append("crash after a fatal event-loop error")
+        elif not m:
+            viol.append("no trailer (crash?)")
+        else:
+            refused, failop = int(m.group(1)), int(m.group(2))
+            if refused == 0:
+                ctx.count("allocfail.not_reached")
+                if core != base_core:
+                    viol.append("run without any refusal differs from the baseline")
+            else:
+                where = "eventloop" if failop == -2 else "api"
+                ctx.count("allocfail." + ("persistent" if persist else where))
+                if c.startswith("conn"):
+                    ctoks = toks
+                    if "start=null" in toks and not persist:
+                        # the refused network_connect: whatever it opened must be closed again; the
+                        # retried call is then judged on its own (descriptor ordinals renumbered)
+                        i = toks.index("start=null")
+                        pre, ctoks = toks[:i], toks[i + 1:]
+                        opened = [int(x) for t in pre for x in re.findall(r"^sock(\d+):", t)]
+                        closed = [int(x) for t in pre for x in re.findall(r"^close(\d+)$", t)]
+                        if sorted(opened) != sorted(closed):
+                            viol.append("the refused network_connect left descriptors open: opened %s closed %s" % (opened, closed))
+                        off = len(opened)
+                        ctoks = [re.sub(r"^(sock|conn|close|gso|fcntlfail|cb=)(\d+)", lambda m: m.group(1) + str(int(m.group(2)) - off), t)
+                                 for t in ctoks]
+                        if ctoks != base_core.split():
+                            viol.append("after the refused network_connect was retried the run differs from the baseline: " + " ".join(ctoks)[:200])
+                    viol += check_conn(c, ctoks, extra_t, allocfail=True)
+                    reported = ("start=null" in toks) or any(t.startswith("run=") for t in toks) or "cb=-1" in toks
+                else:
+                    v1, _ = check_sc(c, toks, allocfail="accept")
+                    if v1:
+                        v2, _ = check_sc(c, toks, allocfail="reserve")
+                        v1 = v2 if not v2 else v1
+                    viol += v1
+                    reported = any(t.endswith("=null") or t.endswith("=-1") or t == "fail" or re.match(r"^(cb\d+=-1|nrcb=-1)", t) for t in toks)
+                if not reported and not persist:
+                    # a refusal that nobody reports must at least be harmless: same behaviour
+                    if _collapse_retry(toks) != base_core.split():
+                        viol.append("an allocation was refused, nothing reported it and the behaviour changed")
+                if where == "api" and not persist and c.startswith("sc") and "nww" not in c and "nwc" not in c:
+                    # failure reported by a registration-type call: after the retry everything is as
+                    # in the run without failure (nothing was left registered, state unchanged)
+                    if _collapse_retry(toks) != base_core.split():
+                        viol.append("after the failed call was retried the run differs from the baseline: " +
+                                    " ".join(_collapse_retry(toks))[:200])
+        nontrivial.add(re.sub(r"\d+", "#", core)[:300])
+        if viol:
+            nd += 1
+            if nd <= 4:
+                ctx.fail(sub, "property", ac, "; ".join(viol[:3]) + " || impl=" + a[:500], property_fails=True)
+    for rc, err in st:
+        if rc != 0:
+            ctx.fail(sub, "crash", "", "driver exit rc=%d: %s" % (rc, err[-300:]), property_fails=True)
+    ctx.count(sub + ".disagreements", nd)
+    ctx.record(sub, cases, nontrivial,
+               "for %d scenarios (read/write/accept/connect/netbuf reader/writer): fail the k-th library "
+               "allocation for every k (quick: up to 14 sampled k per scenario) and persistently from k on; "
+               "checked: failure reported (NULL/-1/callback -1/run -1), no abort, no sanitizer report, no leak "
+               "(LeakSanitizer per case), nothing left registered, retried call gives the baseline run" % len(base),
+               samples=[cases[0], cases[-1]] if cases else [])
+
+
+SUBCHECKS["C14"] = [check_net_allocfail]
